@@ -37,6 +37,14 @@ def bounds(tier):
             "transplant_targets": "all final releases of the same layout class"}
 
 
+def hosts(tier):
+    return common.HOSTS
+
+
+def workers_for_host(tier, host):
+    return 6 if host == common.PRIMARY else 2
+
+
 def prepare(tier):
     k = 1 if tier == "quick" else 2
     return {"progs": common.datasets("progs", common.REFS, k), "consts": common.datasets("consts", common.REFS, tier)}
@@ -69,6 +77,9 @@ def cases(plan, tier, shard, nshards, host):
 
     from gen.canon import hx
 
+    # the other five hosts (3.8-3.11, 3.13) read the corpus and every compiled program (native path where the file is the
+    # host's own version); the constant-encoding space runs on all hosts in C10, the transplants on the primary host
+    secondary = host != common.PRIMARY
     # (iv) the historical corpus, incl. the versions no interpreter exists for: reference = the independent model
     # M-marshal (models/m_marshal.py), whose conformance with the nine real interpreters is replayed below on every
     # farm case of this run
@@ -85,7 +96,7 @@ def cases(plan, tier, shard, nshards, host):
         # (ii) constant shapes: every encoding of the value grammar (dataset shared with C10), whole tree + consumption
         hdr = header_for(src_ver, m_magic.FINAL[src_ver])
         for idx, rec in common.read_dataset(plan["consts"][v], shard, nshards):
-            if idx < 0:
+            if idx < 0 or secondary:
                 continue
             yield {"kind": "consts", "id": rec["id"], "ver": list(src_ver), "tver": list(src_ver), "pyc": hx(hdr) + rec["payload"],
                    "hdrlen": len(hdr), "tree": rec["tree"], "textfloat": rec["textfloat"]}
@@ -98,6 +109,8 @@ def cases(plan, tier, shard, nshards, host):
             payload = pyc[rec["hdrlen"]:]
             yield {"kind": "prog", "id": rec["id"], "ver": list(src_ver), "tver": list(src_ver),
                    "pyc": rec["pyc"], "hdrlen": rec["hdrlen"], "tree": rec["tree"]}
+            if secondary:
+                continue
             # transplants: only quick-sized subset in thorough (k=2 pairs add nothing new for the header)
             if tier == "thorough" and "+" in rec["id"]:
                 continue
